@@ -512,6 +512,15 @@ func (n *Node) Observe() []string {
 			}
 		}
 	}
+	// authority query
+	{
+		qs := poakeeper.NewQueryServerImpl(n.App.POAKeeper)
+		a := 0
+		if res, err := qs.PoaAuthority(ctx, &poa.QueryPoaAuthorityRequest{}); err == nil && res.Authority == w.Admin.Addr.String() {
+			a = 1
+		}
+		out = append(out, fmt.Sprintf("AUTH %d", a))
+	}
 	// queries
 	{
 		qs := poakeeper.NewQueryServerImpl(n.App.POAKeeper)
@@ -548,4 +557,21 @@ func decStr(d sdkmath.LegacyDec) string {
 		return "nil"
 	}
 	return d.BigInt().String()
+}
+
+// StoreHashes returns the last committed hash of every module store the PoA properties talk about.
+func (n *Node) StoreHashes() map[string]string {
+	out := map[string]string{}
+	for _, name := range []string{"poa", "staking", "slashing", "bank", "mint", "distribution", "acc", "gov", "authz", "group"} {
+		k := n.App.GetKey(name)
+		if k == nil {
+			continue
+		}
+		st := n.App.CommitMultiStore().GetCommitKVStore(k)
+		if st == nil {
+			continue
+		}
+		out[name] = fmt.Sprintf("%x", st.LastCommitID().Hash)
+	}
+	return out
 }
